@@ -666,6 +666,7 @@ class MultiSetup_PreGER(BaseSetup, GeometryMixin):
             newdatasets.append(newdata)
 
         Y = pre_multisetup(newdatasets, self.ref_ind)
+        self.datasets = newdatasets
         self.data = Y
 
     # method to detrend data
@@ -707,4 +708,5 @@ class MultiSetup_PreGER(BaseSetup, GeometryMixin):
             newdatasets.append(newdata)
 
         Y = pre_multisetup(newdatasets, self.ref_ind)
+        self.datasets = newdatasets
         self.data = Y
